@@ -132,6 +132,9 @@ func (rn *runner) tmp(prefix string) string {
 	return filepath.Join(rn.work, fmt.Sprintf("%s%d", prefix, rn.nextTmp))
 }
 
+// raceBatch is the largest number of cases one -race child is given.
+const raceBatch = 40
+
 // runShard runs the cases in one or more child processes (restarting after a
 // death) and returns one Result per case that was judged.
 func (rn *runner) runShard(cases []Case, race bool) shardOutcome {
@@ -141,7 +144,13 @@ func (rn *runner) runShard(cases []Case, race bool) shardOutcome {
 		cp := rn.tmp("cases")
 		op := rn.tmp("out")
 		ep := rn.tmp("err")
-		b, _ := json.Marshal(cases)
+		// A -race child gets a bounded batch: its watchdog is a fixed wall
+		// time, and a long list of slow cases must not be mistaken for a stall.
+		cur := cases
+		if race && len(cur) > raceBatch {
+			cur = cases[:raceBatch]
+		}
+		b, _ := json.Marshal(cur)
 		os.WriteFile(cp, b, 0o644)
 		bin := rn.self
 		env := append(os.Environ(), rn.prop.ChildEnv...)
@@ -221,7 +230,8 @@ func (rn *runner) runShard(cases []Case, race bool) shardOutcome {
 			os.Remove(cp)
 			os.Remove(op)
 			os.Remove(ep)
-			break
+			cases = cases[len(cur):]
+			continue
 		}
 		// The child died. Attribute to the started-but-unfinished case.
 		stderr, _ := os.ReadFile(ep)
